@@ -12,7 +12,12 @@ from pymtl3.passes.rtlir import RTLIRDataType as rdt
 from pymtl3.passes.rtlir import RTLIRType as rt
 
 from ...errors import VerilogPlaceholderError, VerilogReservedKeywordError
-from ...util.utility import get_component_unique_name, make_indent, pretty_concat
+from ...util.utility import (
+    get_component_unique_name,
+    make_indent,
+    pretty_concat,
+    sized_decimal,
+)
 
 
 class VStructuralTranslatorL1( StructuralTranslatorL1 ):
@@ -219,7 +224,7 @@ class VStructuralTranslatorL1( StructuralTranslatorL1 ):
     return var_id.replace( '[', '__' ).replace( ']', '' )
 
   def _literal_number( s, nbits, value ):
-    return f"{nbits}'d{int(value)}"
+    return sized_decimal( nbits, value )
 
   def rtlir_tr_literal_number( s, nbits, value ):
     return s._literal_number( nbits, value )
